@@ -46,7 +46,7 @@ func genSignerSpec(r *Rng, cheap bool) SignerSpec {
 // dispatch looks at key 265 only, so such a profile is by design not reachable
 // through Evidence.UnmarshalCOSE and the binding clause would compare apples
 // with pears.
-var profFamilies = []string{"p1", "p2", "p1", "p2", "xp2"}
+var profFamilies = []string{"p1", "p2", "p1", "p2", "xp2", "xw"}
 
 func (evidWorld) Gen(prop, tier string, idx int, r *Rng) *Trace {
 	var cfg EvidCfg
@@ -122,7 +122,7 @@ func (evidWorld) Gen(prop, tier string, idx int, r *Rng) *Trace {
 				op.A = cfg.Signers[r.Intn(nSig)].Key
 			}
 		case "mutate":
-			op.A = r.Intn(5)
+			op.A = r.Intn(10)
 			op.B = r.Intn(1 << 20)
 		}
 		if r.Chance(faultRate, 8) {
@@ -375,6 +375,9 @@ func (evidWorld) Exec(prop string, t *Trace) *Result {
 				res.Faults[op.F]++
 				faultSeen = true
 			}
+			if c19 && fired > 0 && err == nil && (op.F == "codec.marshal_err" || op.F == "codec.swmarshal_err") {
+				res.violate("C19", "token-despite-codec-fault", "", i, "%s returned a token although the claims' own CBOR encoder failed during the call (%s): the payload cannot be the encoding of the attached claims", op.K, op.F)
+			}
 			res.logf("%d %s signer=%d f=%s v=%s err=%s tok=%x", i, op.K, op.A, op.F, okOrErr(v), okOrErr(err), tok)
 			if err != nil {
 				res.Evals++
@@ -503,7 +506,18 @@ func (evidWorld) Exec(prop string, t *Trace) *Result {
 						res.Probes["binding_evaluated"]++
 						dec, derr := psatoken.DecodeClaimsFromCBOR(model.parts.Payload)
 						if derr != nil {
-							res.violate("C19", "binding-payload-undecodable", "", i, "Verify succeeded, claims are attached, but the covered payload does not decode (%v)", derr)
+							// The dispatching decoder refuses the payload (e.g. the owner edited the claims into
+							// declaring an unknown profile and signed without validation). The binding can still
+							// be judged: decode the payload into a fresh object of the attached claims' own type,
+							// or, if that is impossible too, compare the payload with the encoding of the attached claims.
+							if like := decodeLike(e.Claims, model.parts.Payload); like != nil {
+								res.Probes["binding_judged_by_same_type_decode"]++
+								if a, b := getterObs(like), getterObs(e.Claims); a != b {
+									res.violate("C19", "binding-mismatch", "", i, "Verify succeeded but attached claims differ from the covered payload (decoded into the same claims type):\n payload: %s\n attached: %s", a, b)
+								}
+							} else if enc, eerr := psatoken.EncodeClaimsToCBOR(e.Claims); eerr != nil || !bytes.Equal(enc, model.parts.Payload) {
+								res.violate("C19", "binding-payload-undecodable", "", i, "Verify succeeded, claims are attached, but the covered payload neither decodes (%v) nor is the encoding of the attached claims", derr)
+							}
 						} else if a, b := getterObs(dec), getterObs(e.Claims); a != b {
 							res.violate("C19", "binding-mismatch", "", i, "Verify succeeded but attached claims differ from the covered payload:\n payload: %s\n attached: %s", a, b)
 						} else if model.payloadObs != "undecodable" && model.payloadObs != b {
@@ -525,7 +539,10 @@ func (evidWorld) Exec(prop string, t *Trace) *Result {
 				break
 			}
 			c := e.Claims
-			switch op.A % 5 {
+			switch op.A % 10 {
+			case 5, 6, 7, 8, 9:
+				// the owner edits exported fields of its claims object directly: states no setter can produce
+				fieldMutate(c, op.A%10)
 			case 0:
 				_ = c.SetClientID(int32(op.B))
 			case 1:
@@ -887,4 +904,91 @@ func (evidWorld) Simplify(o Op) []Op {
 		out = append(out, c)
 	}
 	return out
+}
+
+// fieldMutate edits exported fields of the built-in claims structs in place.
+func fieldMutate(c psatoken.IClaims, code int) {
+	defer func() { _ = recover() }()
+	var p1 *psatoken.P1Claims
+	var p2 *psatoken.P2Claims
+	switch x := c.(type) {
+	case *psatoken.P1Claims:
+		p1 = x
+	case *XP1Claims:
+		p1 = &x.P1Claims
+	case *psatoken.P2Claims:
+		p2 = x
+	case *XP2Claims:
+		p2 = &x.P2Claims
+	case *XWClaims:
+		p2 = &x.P2Claims
+	}
+	one := uint(1)
+	switch code {
+	case 5:
+		if p1 != nil {
+			p1.NoSwMeasurements = &one // next to whatever components are there
+		} else if p2 != nil {
+			p2.VSI = sp("")
+		}
+	case 6:
+		if p1 != nil {
+			p1.ClientID = nil
+		} else if p2 != nil {
+			p2.ClientID = nil
+		}
+	case 7:
+		if p1 != nil {
+			p1.Profile = sp("SOMETHING_ELSE")
+		} else if p2 != nil {
+			p2.Profile = eatProfileOf("http://example.com/other")
+		}
+	case 8:
+		if p1 != nil {
+			p1.SwComponents = nil
+			p1.NoSwMeasurements = nil
+		} else if p2 != nil {
+			p2.SwComponents = nil
+		}
+	case 9:
+		b := []byte{1, 2, 3}
+		if p1 != nil {
+			p1.Nonce = &b
+		} else if p2 != nil {
+			p2.BootSeed = &b
+		}
+	}
+}
+
+// decodeLike decodes payload into a fresh claims object of the same dynamic
+// type (and canonical profile) as like; nil when that is not possible.
+func decodeLike(like psatoken.IClaims, payload []byte) (out psatoken.IClaims) {
+	defer func() {
+		if r := recover(); r != nil {
+			out = nil
+		}
+	}()
+	var fresh psatoken.IClaims
+	switch x := like.(type) {
+	case *psatoken.P1Claims:
+		fresh = &psatoken.P1Claims{CanonicalProfile: x.CanonicalProfile}
+	case *psatoken.P2Claims:
+		fresh = &psatoken.P2Claims{CanonicalProfile: x.CanonicalProfile}
+	case *XP1Claims:
+		fresh = &XP1Claims{P1Claims: psatoken.P1Claims{CanonicalProfile: x.CanonicalProfile}}
+	case *XP2Claims:
+		fresh = &XP2Claims{P2Claims: psatoken.P2Claims{CanonicalProfile: x.CanonicalProfile}}
+	case *XWClaims:
+		fresh = &XWClaims{P2Claims: psatoken.P2Claims{CanonicalProfile: x.CanonicalProfile}}
+	default:
+		return nil
+	}
+	u, ok := fresh.(interface{ UnmarshalCBOR([]byte) error })
+	if !ok {
+		return nil
+	}
+	if err := u.UnmarshalCBOR(append([]byte{}, payload...)); err != nil {
+		return nil
+	}
+	return fresh
 }
